@@ -37,3 +37,20 @@ pub proof fn lemma_str_bytes_push_ascii(a: Seq<char>, c: char)
     assert(str_bytes(seq![c]) =~= seq![c as u8]);
     assert(str_bytes(a) + seq![c as u8] =~= str_bytes(a).push(c as u8));
 }
+
+/// `Vec<T>::extend(iter of &T)` (the `Extend<&'a T>` impl): appends copies of the referenced elements in order
+pub uninterp spec fn iter_seq_ref<T, I>(i: I) -> Seq<T>;
+pub assume_specification<'a, T: Copy + 'a, A: std::alloc::Allocator, I: std::iter::IntoIterator<Item = &'a T>> [<std::vec::Vec<T, A> as std::iter::Extend<&'a T>>::extend] (v: &mut std::vec::Vec<T, A>, i: I)
+    ensures final(v)@ == old(v)@ + iter_seq_ref::<T, I>(i);
+pub broadcast axiom fn axiom_iter_seq_ref_slice<T>(s: &[T])
+    ensures #[trigger] iter_seq_ref::<T, &[T]>(s) == s@;
+pub broadcast axiom fn axiom_iter_seq_ref_vec<T>(s: &Vec<T>)
+    ensures #[trigger] iter_seq_ref::<T, &Vec<T>>(s) == s@;
+
+/// `[T; N]::as_mut_slice`: the slice aliases the whole array
+pub assume_specification<T, const N: usize> [<[T; N]>::as_mut_slice] (a: &mut [T; N]) -> (r: &mut [T])
+    ensures r@ == old(a)@, final(a)@ == final(r)@;
+/// `<[T]>::clone_from_slice` (used on u8 only: clone = copy); panics unless the lengths agree
+pub assume_specification<T: Clone> [<[T]>::clone_from_slice] (s: &mut [T], src: &[T])
+    requires old(s)@.len() == src@.len()
+    ensures final(s)@ == src@;
